@@ -159,6 +159,18 @@ LeafDt(T) == LET RECURSIVE leaf(_)
 \* (NumPy's arithmetic on booleans is logical, not numeric: not what MapE states)
 VUfunc(v, T, mul) == IF HasRecOrUnion(T) \/ HasStrT(T) \/ LeafDt(T).k # "num" \/ LeafDt(T).dt = "bool" THEN Unspec ELSE Ok(MapE(v, mul))
 
+\* ---------------------------------------------------------------- ak.zeros_like / ones_like / full_like, ak.nan_to_num (C04)
+\* the structure (lists, records, missing values) stays, every number becomes the constant / every NaN becomes 0
+RECURSIVE ConstE(_, _, _)
+ConstE(e, c, nanonly) ==
+  CASE e.t = "list" -> VList([k \in 1..Len(e.xs) |-> ConstE(e.xs[k], c, nanonly)])
+    [] e.t = "rec" -> [e EXCEPT !.vs = [k \in 1..Len(e.vs) |-> ConstE(e.vs[k], c, nanonly)]]
+    [] e.t = "none" -> e
+    [] e.t = "nan" -> VInt(c)
+    [] OTHER -> IF nanonly THEN e ELSE VInt(c)
+VLike(v, T, c) == IF HasUnion(T) \/ HasStrT(T) \/ T.k = "unknown" THEN Unspec ELSE Ok(ConstE(v, c, FALSE))
+VNanToNum(v, T) == IF HasUnion(T) \/ HasStrT(T) \/ T.k = "unknown" THEN Unspec ELSE Ok(ConstE(v, 0, TRUE))
+
 \* ---------------------------------------------------------------- x[x > k]: a jagged boolean index made by a real comparison (C01)
 HasRegT(T) == LET RECURSIVE has(_)
                   has(U) == CASE U.k = "reg" -> TRUE
